@@ -640,6 +640,10 @@ func runC08(c *Ctx) *Replay {
 	cfg.FullMsg = 40
 	if c.R.Chance(1, 16) {
 		cfg.Ladder, cfg.LadderBig = 3, 2
+	} else if c.R.Chance(1, 30) {
+		// one GIANT array (2^17 scalars or 2^16 small records): payloads that readers fetch
+		// in several steps, with the failure somewhere inside
+		cfg.Giant = 2
 	}
 	var pk *pick
 	for try := 0; try < 20; try++ {
